@@ -125,6 +125,25 @@ func enumCases(c *swCurve, lv level, hasJSMB, hasOnCurve bool) []*opCase {
 		}
 	}
 
+	// JointScalarMulBase whose two partial products coincide / cancel: [2t]G + [t](2G) and
+	// [-2t]G + [t](2G) (inside the documented domain: p != (0,0), p != +-g, scalars non-zero)
+	if hasJSMB {
+		t := c.scalar("t")
+		tt := new(big.Int).Lsh(t.v, 1)
+		tt.Mod(tt, c.r)
+		P := c.point("2G")
+		for _, complete := range []bool{false, true} {
+			if lv != lvFull && complete {
+				continue
+			}
+			for _, s1 := range []namedScalar{{"2t", tt}, {"-2t", new(big.Int).Sub(c.r, tt)}} {
+				e := c.add(c.mul(c.G, s1.v), c.mul(P.p, t.v))
+				out = append(out, &opCase{sp: opSpec{op: "jsmb", complete: complete}, pts: []namedPoint{P}, scs: []namedScalar{t, s1},
+					expect: e, inDomain: true, why: ""})
+			}
+		}
+	}
+
 	// --- MultiScalarMul with 1..3 terms: all tuples of (point, scalar) terms
 	type term struct {
 		P namedPoint
